@@ -193,8 +193,10 @@ def gibbs_cases(draw, tier="quick"):
                                   latent_fams=["Gaussian", "Gaussian", "GMRF", "Normal", "Laplace"], hyper_fams=["Gamma"]))
     names = [n["name"] for n in spec["latents"]] + [h["name"] for h in spec["hypers"]]
     return {"graph": spec, "prefer": {n: draw(st.sampled_from(["MH", "MH", "Conjugate", "LinearRTO", "CWMH", "MALA", "PCN", "PCN"])) for n in names},
-            "nsteps": {n: draw(st.integers(1, 3)) for n in names}, "sweeps": draw(st.integers(1, 4)), "sweeps2": draw(st.integers(0, 2)),
-            "warmup": draw(st.sampled_from([0, 0, 2])), "seed": draw(st.integers(0, 10 ** 6)), "probe": draw(gen.vec(4, -0.5, 0.5)),
+            # (0 steps = a block that is kept fixed)
+            "nsteps": {n: draw(st.sampled_from([1, 1, 2, 3, 0])) for n in names}, "sweeps": draw(st.integers(1, 4)), "sweeps2": draw(st.integers(0, 2)),
+            # (23 warm-up sweeps: beyond the length where every warm-up sweep is also a tuning sweep)
+            "warmup": draw(st.sampled_from([0, 0, 0, 2, 2, 23])), "seed": draw(st.integers(0, 10 ** 6)), "probe": draw(gen.vec(4, -0.5, 0.5)),
             # the dictionaries handed to the sampler are keyed by block name: their key order is free and the step counts may be
             # given for some blocks only (default 1)
             "dict_order": draw(st.permutations(names)), "nsteps_given": {n: draw(st.sampled_from([True, True, False])) for n in names},
@@ -223,6 +225,8 @@ def check_history(c, log, order, nsteps, init, stored, J, rec, what, sweeps_done
     for sweep in range(sweeps_done):
         for b in order:
             k = nsteps[b]
+            if k == 0:
+                continue      # a block with zero configured steps keeps its value and is not advanced
             require(pos + k <= len(log), f"{what}: block '{b}' was not advanced {k} time(s) in sweep {sweep} (history too short)", recorded=len(log), needed=pos + k)
             entries = log[pos:pos + k]
             pos += k
